@@ -164,6 +164,7 @@ def run(ctx):
     ctx.coverage["observations_corrupted_reads"] = [n for r in recs for n in r.get("corrupt_notes", [])][:8]
     ctx.coverage["persistence_schemas"] = (meta or {}).get("n_schemas")
     ctx.coverage["persistence_tlv_entries"] = (meta or {}).get("n_entries")
+    ctx.coverage["persist_versions"] = (meta or {}).get("versions")
     ctx.coverage["field_pins"] = {k: (meta or {}).get(k) for k in ("n_pins", "n_pin_name_matches", "n_pin_allowlisted")}
     sc_t, sw_t, ls_t = ctx.coverage.get("scorer_totals", {}), ctx.coverage.get("sweeper_totals", {}), ctx.coverage.get("lockstep_totals", {})
     mc_t, rv_t = ctx.coverage.get("msgcut_totals", {}), ctx.coverage.get("recv_totals", {})
